@@ -139,6 +139,30 @@ def _priceable(job):
                 out["feedback"] = {"status": res2.status.name, "validate": bool(res2.validate())}
             except Exception as e:  # noqa: BLE001
                 out["feedback"] = {"status": "raised " + type(e).__name__ + ": " + str(e)[:120], "validate": False}
+            # … and the same system with ONE recorded payment deleted, in the sparse shape the search itself returns (absent = 0): if
+            # the validator rejects it, the fully specified call must not report success (round 8, C12-r8B: only recorded entries fixed)
+            try:
+                import copy as _copy
+
+                pf2 = [_copy.copy(pf) for pf in res.payment_functions]
+                hit = None
+                for i, pf in enumerate(pf2):
+                    for c in list(pf):
+                        if pf[c] > 1e-6:
+                            hit = (i, c)
+                            break
+                    if hit:
+                        break
+                if hit is not None:
+                    del pf2[hit[0]][hit[1]]
+                    pf3 = [_copy.copy(pf) for pf in pf2]
+                    res3 = priceable(inst, prof, list(res.allocation), voter_budget=res.voter_budget, payment_functions=pf2,
+                                     stable=bool(job.get("stable")), exhaustive=bool(job.get("exhaustive")), max_seconds=int(job.get("max_seconds", 30)))
+                    ok3 = bool(validate_price_system(inst, prof, list(res.allocation), res.voter_budget, pf3,
+                                                     stable=bool(job.get("stable")), exhaustive=bool(job.get("exhaustive"))))
+                    out["feedback_corrupt"] = {"validator": ok3, "search": bool(res3.validate()), "deleted": [hit[0], hit[1].name]}
+            except Exception as e:  # noqa: BLE001
+                out["feedback_corrupt"] = {"error": type(e).__name__ + ": " + str(e)[:120]}
     return out
 
 
